@@ -252,7 +252,7 @@ func genCfg(r *rand.Rand, kind string) cfgIn {
 	c.NoPresence = r.IntN(50) == 0
 	if kind == "rt" {
 		c.OC = vh.Pick(r, 1, 2, 3, 0)
-		c.QSize = vh.Pick(r, 1, 2, 3, 8, 0)
+		c.QSize = vh.Pick(r, 1, 1, 2, 2, 3, 3, 8, 8, 64, 0)
 		c.Workers = vh.Pick(r, 1, 2, 3, 4, 4, 0)
 	}
 	return c
@@ -329,7 +329,7 @@ func genShard(r *rand.Rand) input {
 			id = string(b)
 		}
 		e := eventIn{ChID: id, ChType: uint8(vh.Pick(r, 0, 1, 2, 3, 255, r.IntN(256)))}
-		in.Ops = append(in.Ops, op{K: "sh", Ev: &e, Shard: vh.Pick(r, 1, 2, 3, 4, 7, 8, 16, 64, 1000, 1+r.IntN(5000))})
+		in.Ops = append(in.Ops, op{K: "sh", Ev: &e, Shard: vh.Pick(r, 1, 2, 3, 4, 7, 8, 16, 64, 255, 1+r.IntN(300))})
 		if r.IntN(4) == 0 && j+1 < n { // the same channel again: must land on the same shard
 			in.Ops = append(in.Ops, in.Ops[len(in.Ops)-1])
 			j++
